@@ -139,7 +139,15 @@ fn case(tier: Tier, rng: &mut Rng, rep: &mut Report, timed_case: bool) {
     p.rich_cost = false;
     let world = gen_world(rng, &p);
     let net = world.net.clone();
-    let graph = Arc::new(net.to_graph());
+    let via_files = rng.chance(0.2);
+    let graph = match crate::gen::net::graph_for(&net, via_files) {
+        Ok(g) => g,
+        Err(e) => {
+            rep.violate("graph-load|error", format!("the network files written by the generator were refused: {e}"), || net.to_json());
+            return;
+        }
+    };
+    rep.count(if via_files { "graphs_loaded_from_files" } else { "graphs_built_in_memory" }, 1);
     let mut si = match world.si(graph, &json!({})) {
         Ok(s) => s,
         Err(e) => {
@@ -149,11 +157,13 @@ fn case(tier: Tier, rng: &mut Rng, rep: &mut Report, timed_case: bool) {
     };
     let maxdeg = net.max_out_degree().max(net.max_in_degree());
     for _ in 0..(if timed_case { 1 } else { 3 }) {
-        let ksp = !timed_case && rng.chance(0.2);
+        let ksp = !timed_case && rng.chance(0.3);
         let alg = if ksp {
             let k = rng.urange(1, 3);
             let under = Box::new(gen_plain_alg(rng, true));
-            if rng.chance(0.8) { Alg::SingleVia { k, under, sim: Sim::AcceptAll, term: KTerm::Default } } else { Alg::Yens { k: 1, under, sim: Sim::AcceptAll, term: KTerm::Default } }
+            // Yen's algorithm is driven with k >= 2 as well: queries on which its unlimited run does not end
+            // (listed findings of C13) are skipped below, all others must obey the limits in every spur search
+            if rng.chance(0.6) { Alg::SingleVia { k, under, sim: Sim::AcceptAll, term: KTerm::Default } } else { Alg::Yens { k: rng.urange(1, 3), under, sim: Sim::AcceptAll, term: KTerm::Default } }
         } else {
             gen_plain_alg(rng, true)
         };
